@@ -262,12 +262,13 @@ class Expand(_JsonMixin, DisjointUnionStrategy[W, Word]):
     statistics); drop_empty=True filters empty children itself and then declares
     possibly_empty=False."""
 
-    SETTINGS = ("k", "norm", "drop_empty")
+    SETTINGS = ("k", "norm", "drop_empty", "atom_last")
 
-    def __init__(self, k: int = 1, norm: bool = False, drop_empty: bool = False, **kw):
+    def __init__(self, k: int = 1, norm: bool = False, drop_empty: bool = False, atom_last: bool = False, **kw):
         self.k = k
         self.norm = norm
         self.drop_empty = drop_empty
+        self.atom_last = atom_last  # the single-word children come after the others
         kw.pop("possibly_empty", None)
         super().__init__(possibly_empty=not drop_empty, **kw)
 
@@ -289,8 +290,11 @@ class Expand(_JsonMixin, DisjointUnionStrategy[W, Word]):
         for length in range(self.k):
             for w in product(c.alphabet, repeat=length):
                 children.append(self._child(c, c.prefix + "".join(w), True))
+        atoms = list(children)
+        children = []
         for w in product(c.alphabet, repeat=self.k):
             children.append(self._child(c, c.prefix + "".join(w), False))
+        children = children + atoms if self.atom_last else atoms + children
         if self.drop_empty:
             children = [ch for ch in children if not ch.is_empty()]
             if not children:
@@ -683,6 +687,8 @@ def make_pack(name: str) -> StrategyPack:
             initial, expansion = [], [[RemoveFront(norm=norm), Expand(norm=norm)]]
         elif f == "dropempty":
             expansion = [[Expand(norm=norm, drop_empty=True)]]
+        elif f == "atomlast":
+            expansion = [[Expand(norm=norm, atom_last=True)]]
         elif f == "sym":
             symmetries = [SwapLetters()]
         elif f == "inf1":
